@@ -3,32 +3,63 @@
  'props': 'Props/C03.v',
  'models': ['Model/Safety.v'],
  'trusted': ['PARTIAL BY NATURE: panics and hangs inside gojsonschema, antchfx/xpath, goja, encoding/json, '
-             'encoding/xml, encoding/csv, regexp and golang.org/x/text are not expressible in the model; for '
-             'them harness/cmd/c03 is a search engine only (recover() + watchdog over mutated schemas and '
-             'damaged inputs) and the absence of findings there is not proved',
-             'json.Decoder token grammar (inside an object a string key or "}" is expected, inside an array '
-             'a value or "]"; any number of top-level values) enters json_stream_cursor_no_panic as the '
-             'hypothesis dec_accepts',
-             'encoding/csv: a Reader.Read call with a usable delimiter consumes at least one physical line '
-             'or returns io.EOF (Section hypothesis span_ok of csv_delim_progress); its validDelim is '
-             'transcribed by hand (stdcsv_valid_delim)',
-             'reflect.Value.Call / Type.In / Type.Elem / AssignableTo are modelled over an abstract type '
-             'universe (Model/Safety.v section 1)',
-             'the readers themselves (hierarchy reader, stream readers, csv/fixed-length, EDI) are modelled '
-             'under C04..C07; read_terminates_bound takes their progress property as a Section hypothesis; '
-             'hier_reads_bound / edi_reads_bound are closed instances over C05\'s machine = specification theorems '
-             '(Proofs/HierTerm.v), inheriting C05\'s trusted base and, for EDI, its guard no_root_repeat (F14)',
-             'Gen/Safety.v: isValidDelimiter of csv and csv2 (and whether validateFileDecl applies it), '
-             'JSON-schema bounds, and whether each of the five ValidateSchema returns the json.Unmarshal error, '
-             'extracted on every run',
-             'antchfx/xpath evaluation enters query_wrappers_no_panic as an arbitrary outcome (panic or n nodes); '
-             'goja export enters javascript_result_no_panic_partial as a five-way classification of the completion '
-             'value (validated by the harness only)'],
+             'encoding/xml, encoding/csv, regexp and golang.org/x/text are not expressible in the model; for them '
+             'harness/cmd/c03 is a search engine only (recover() + watchdog + memory watchdog + supervisor process, '
+             'random stream and deterministic sweeps) and the absence of findings there is not proved',
+             'PROVED over hand-transcribed code (Model/Safety.v): custom_func invocation (invoke_no_panic), template '
+             'expansion incl. null declarations (validate_terminates, validate_cycle_rejected), JSON stream cursor '
+             '(json_stream_cursor_no_nil_deref unconditionally, json_stream_cursor_no_panic under the decoder '
+             'grammar), removeLastFilterInXPath / removeTrailingFiltersInXPath (total; byte prefix on every valid '
+             "UTF-8 string, using C06's byte sweeps), lineToColumnValue (fixed_slice_no_panic), the old csv reader "
+             'Read/checkHeader/jumpTo at line level (csv_jump_terminates, csv_fault_reads_bound), the fixed-length '
+             'by_rows reader (fixed_by_rows_reads_bound), the Read-count composition (reads_bound_generic, '
+             "read_terminates_bound) with closed instances over C05's hierarchy machine (hier_reads_bound, "
+             'edi_reads_bound)',
+             'EXTRACTED on every run into Gen/Safety.v, theorems re-proved over it: isValidDelimiter of csv and csv2 '
+             'and whether validateFileDecl applies it; JSON-schema bounds (delimiter length, rows / by_rows / '
+             'start_pos / length minimum); whether each of the five ValidateSchema returns the json.Unmarshal error '
+             '(rows_validated); whether SchemaValidate calls checkTopLevelKeys on the valid path '
+             '(dup_keys_validated); the error-classification shapes of csv/reader.go (Read returns a latched readErr '
+             'first, Read latches a non-ParseError, jumpTo fails out on a non-ParseError) and the condition of the '
+             'raw-error return of fixedlength readByRowsEnvelope (csv_jump_terminates, csv_fault_reads_bound, '
+             'fixed_by_rows_reads_bound)',
+             'COMPARED ONLY (check_case on real runs, no theorem about the Go side): reflect.Value.Call / Type.In / '
+             'Type.Elem / AssignableTo as modelled over an abstract type universe; encoding/csv validDelim as '
+             'transcribed (stdcsv_valid_delim) and "a Read with a usable delimiter consumes >= 1 physical line" '
+             '(hypothesis span_ok); the json.Decoder token grammar (hypothesis dec_accepts); string(runes)/[]rune '
+             'round trip inside removeTrailingFiltersInXPath; gojsonschema integer / minimum semantics and '
+             'json.Unmarshal into int (schema_int); the javascript result classification (js_result) and the xpath '
+             'engine outcome (engine_res) are abstract classifications exercised by sweeps only',
+             'NOT MODELLED here (other properties): the stream readers (C04), csv2 / fixedlength2 / EDI tokenisation '
+             "and the hierarchy machine itself (C05..C07; reused through C05's machine = specification theorems), "
+             'byte-level propagation of a source fault through bufio (C16 Model/Chunk.v); the fixed-length '
+             'by_header_footer reader under a failing source (C16 known finding F27) and the json / xml readers '
+             'under a failing source are covered by the failing-reader search only'],
  'assumptions': ['sig_ok: the first parameter of a registered custom function accepts *transformctx.Ctx '
                  '(registration is caller code, outside the claim)',
-                 'guards of the known findings (KNOWN_FINDINGS.txt, property C03): tpl_small (N3), groups_small (N4), '
-                 'js_no_map_set (N8); the main generators stay inside them, the recorded inputs are replayed from '
-                 'replays/corpus/C03 on every run (N8 in a process of its own); the classes of the repaired N1, N2, N5, '
-                 'N6, N7, N9, N10 are exercised by the generators (failing-reader runs use any header / data row index)',
-                 'read bound: a finite input of n bytes reaches a terminal result within n+2 Reads (the '
-                 'constant the harness enforces), also when the input reader fails persistently after those n bytes']}
+                 'guards of the known findings (KNOWN_FINDINGS.txt, property C03): tpl_small (N3), groups_small '
+                 '(N4), js_no_map_set (N8); the main generators stay inside them, the recorded inputs are replayed '
+                 'from replays/corpus/C03 on every run (N8 in a process of its own); the classes of the repaired N1, '
+                 'N2, N5, N6, N7, N9, N10 are exercised by the generators (failing-reader runs use any header / data '
+                 'row index)',
+                 'javascript_result_no_panic_partial stays partial: a Map / Set containing itself overflows the '
+                 "stack inside goja's own Export (N8); no Go-side repair exists short of replacing Value.Export, so "
+                 'the guard js_no_map_set cannot be lifted',
+                 'read bound: a finite input of n bytes reaches a terminal result within n+2 Reads (the constant the '
+                 'harness enforces), also when the input reader fails persistently after those n bytes; proved at '
+                 'line level (lines + 1 Reads) for old csv and fixed-length by_rows, at unit level (units + 1) for '
+                 'csv2 / fixedlength2 / EDI without a failing source'],
+ 'level_text': 'Coq theorems (21, no axioms) over Gallina transcriptions of the self-contained panic / termination '
+               'sites of omniparser and of two whole line-based readers, quantified over all inputs / signatures / '
+               'declaration graphs / token sequences / failure patterns (induction and invariants), with the '
+               'decision facts they depend on extracted from the Go source on every run; tied to the code by a '
+               'correspondence check that replays real calls (transcribed pure functions, schema accept/reject, '
+               'reader result sequences, Read counts) through the model inside Coq; plus a crash/hang search engine '
+               '(random schema and input mutation, deterministic sweeps, failing input readers) for everything that '
+               'lives in third-party code.',
+ 'level_note': 'Trusted: Coq kernel/vm_compute, the Go harness and extractor; stdlib and third-party behaviour '
+               'enters as Section hypotheses or abstract classifications named in trusted_base; Print Assumptions: '
+               'closed.',
+ 'technique': 'machine-checked proof in Coq 8.16 (induction over lists / fuel / declaration graphs, invariants for '
+              'the JSON cursor and the readers) + extracted source facts + model/implementation correspondence + '
+              'fuzzing with recover/watchdog'}
